@@ -420,7 +420,9 @@ def validation_cases(binary):
         add("server-password-hash-" + label, lambda c, b=bad: c.update(password=b), "exit")
         add("operator-password-hash-" + label, lambda c, b=bad: c["operators"][0].update(password=b), "exit")
         add("user-password-hash-" + label, lambda c, b=bad: c["users"][0].update(password=b), "exit")
-    for label, bad in (("dot", "a.b"), ("colon", "a:b"), ("comma", "a,b"), ("hash", "#ab"), ("amp", "&ab")):
+    for label, bad in (("dot", "a.b"), ("colon", "a:b"), ("comma", "a,b"), ("hash", "#ab"), ("amp", "&ab"),
+                       ("blank", "a b"), ("tab", "a\tb"), ("newline", "a\nb"), ("cr", "a\rb"), ("blank-at-end", "ab "),
+                       ("tab-at-start", "\tab"), ("empty", "")):
         add("user-name-" + label, lambda c, b=bad: c["users"][0].update(name=b), "exit")
         add("user-nick-" + label, lambda c, b=bad: c["users"][0].update(nick=b), "exit")
         add("operator-name-" + label, lambda c, b=bad: c["operators"][0].update(name=b), "exit")
